@@ -116,6 +116,25 @@ pub fn shard(ctx: &Ctx, spec: &Spec) -> Shard {
             ops = pre;
             sh.add("histories_many_blobs", 1);
         }
+        // one history in forty starts with 80..260 small blobs (three-digit ids, filter hierarchy 3-8 levels deep,
+        // long lists in every per-blob answer)
+        if rng.chance(1, 40) {
+            let m = rng.range(80, 260);
+            if cfg.bloom == 2 {
+                cfg.bloom = 1;
+            }
+            let mut pre = Vec::new();
+            for i in 0..m {
+                pre.push(Op::Put { k: (i % spec.profile.n_keys.max(1) as u64) as u16, ts: rng.below(spec.profile.ts_max.max(1)), meta: None, size: 9 + (i % 30) as u32 });
+                pre.push(if i % 7 == 3 { Op::Close } else { Op::ForceUpdate { pred: true } });
+                if i % 7 == 3 {
+                    pre.push(Op::Create);
+                }
+            }
+            pre.extend(ops);
+            ops = pre;
+            sh.add("histories_very_many_blobs", 1);
+        }
         // one history in twelve starts with a fat blob: 70..140 records over the few keys (several versions of
         // every key, the largest one included), so that the blob's on-disk index has more than one B+tree leaf
         // once the random part of the history closes, dumps or restarts it
